@@ -7,16 +7,18 @@
                          including the `base_position` arithmetic
     C17_inside           every recorded span has both end points in `[0, len]`
     C17_span_*           which token-level span is recorded under each `SpanInfoKey`
-    C17_total_top        every element / text child of the document node has its span
+    C17_total            every element, attribute, text, comment and PI of an accepted tree has
+                         its spans, at every depth (C17_total_top: the top-level instance used
+                         by the epilogues)
     C17_ordered          `start ≤ end` for every recorded span and every error span, when the
                          character-data tokens come in source order
   Not proved here (see bin/props/C17.json): spans fall on char boundaries and slice to the spelling
-  (tokenizer), every node below the top level has its spans, decoding the slice gives the value
-  at tree level (character-level part: C02_content).
+  (tokenizer), decoding the slice gives the value at tree level (character-level part: C02_content).
 -/
 import XotModel.Lemmas.ParseSpans
 import XotModel.Lemmas.ParseSpanKeys
 import XotModel.Lemmas.ParseSpanOrder
+import XotModel.Lemmas.ParseSpanTotal
 import XotModel.Lemmas.ParseWitnessData
 import XotModel.Lemmas.TokenShapeB
 
@@ -115,6 +117,14 @@ theorem C17_total_top {m : Mode} {len : Nat} {env : Env} {ts : List Token} {lexE
     (hshape : TokenShape len ts lexErr) (h : build m len env ts lexErr = .ok p) :
     FwdSpans p.spans 0 p.tree.kids :=
   build_total_top hshape.tags h
+
+/-- C17_total: in whatever is accepted, EVERY node at every depth has its spans (`Covered`):
+    elements `ElementStart`, `ElementEnd` and, per attribute name, `AttributeName` /
+    `AttributeValue`; text nodes `Text`; comments `Comment`; PIs `PiTarget` and, when they have
+    content, `PiContent`. -/
+theorem C17_total {m : Mode} {len : Nat} {env : Env} {ts : List Token} {lexErr : Option Nat} {p : Parsed}
+    (h : build m len env ts lexErr = .ok p) : Covered p.spans [] p.tree :=
+  build_covered h
 
 /-- Non-vacuity on `<p:a xmlns:p='u' b='x&#10;y'><!--c-->t&lt;<![CDATA[c]]></p:a>`: the spans of the
     element name (`p:a`), the end tag, the attribute `b` (name, and value between the quotes), the
